@@ -21,10 +21,6 @@ REVIEWED_CAST = {
         'significant_len is the number of significant bytes of an 8-byte array (1..=8 by construction: rposition over [u8; 8] plus one)',
     're:erltf::encoder::encode_integer:.*map_or.*\\(usize->u32\\)':
         'same value (<= 8); the LARGE_BIG branch is unreachable for it',
-    're:erltf::encoder::encode_integer:value\\(i64->u64\\)':
-        'taken only on the `value >= 0` branch of the sign split (guarded by the dominating comparison)',
-    're:erltf::encoder::encode_integer:wrapping_neg\\(value\\)\\(i64->u64\\)':
-        'two\'s-complement magnitude of a negative i64: wrapping_neg then reinterpretation as u64 yields |value| exactly, including i64::MIN',
 }
 
 
@@ -54,6 +50,25 @@ def reviewed_premises(ctx, rule):
     else:
         ctx.bad(rule, 'premise:atom-count<=255', 'the guard `atom_set.len() > 255 -> Err(TooManyAtoms)` that the reviewed u8 casts of the atom count / positions rely on was not found',
                 ctx.where(WB), key='PREMISE:%s:atom-count-guard' % W)
+    # premise 3: significant_len in encode_integer is `rposition over the 8 bytes of u64::to_le_bytes` + 1, i.e. 1..=8
+    EB = P.B(ENC + 'encode_integer')
+    if EB is not None:
+        ok3 = False
+        for bb, t in EB.calls():
+            if (callee_of(t)[0] or '').endswith('::map_or'):
+                c = str(canon(EB, t['args'][0]))
+                d = canon(EB, t['args'][1]) if len(t['args']) > 1 else None
+                if 'rposition' in c and d == ('const', 1):
+                    # the iterator rposition runs over comes from to_le_bytes of a u64 (8 bytes)
+                    for b2, t2 in EB.calls():
+                        if (callee_of(t2)[0] or '').endswith('::iter') and 'impl u64>::to_le_bytes' in str(canon(EB, t2['args'][0])) and \
+                                any((callee_of(t3)[0] or '').endswith('::rposition') and str(canon(EB, t3['args'][0])).endswith("::iter', %d)" % b2) for _, t3 in EB.calls()):
+                            ok3 = True
+        if ok3:
+            ctx.ok(rule, 'premise:significant_len<=8', 'significant_len = rposition(u64::to_le_bytes(..)) + 1 or 1: between 1 and 8')
+        else:
+            ctx.bad(rule, 'premise:significant_len<=8', 'the digit count written for a big integer is no longer `rposition over the 8 bytes of to_le_bytes` (+1): the reviewed casts of it to u8/u32 have lost their premise',
+                    ctx.where(EB), key='PREMISE:%sencode_integer:significant-len' % ENC)
     # premise 2: long_atoms is `any(|a| a.name.len() > 255)` with len() the BYTE length of the name
     ok2, seen_any = False, False
     for CB in bodies_of_fn(P, W):
